@@ -25,7 +25,15 @@ try:
         subprocess.check_call(['git', 'init', '-q'], cwd=d)
         subprocess.check_call(['git', 'apply', '--whitespace=nowarn', os.path.abspath(patch)], cwd=d)
     env = dict(os.environ, VERIF_REPO=d, VERIF_OUT=os.path.join(d, '.verif-out'))
-    rc = subprocess.call(['/verif/vcheck'] + chk, env=env, cwd='/verif')
+    if '--full' not in sys.argv:
+        env['VERIF_FIRST'] = '1'
+    chk = [a for a in chk if a != '--full']
+    proc = subprocess.Popen(['/verif/vcheck'] + chk, env=env, cwd='/verif', start_new_session=True)
+    rc = proc.wait()
+    try:
+        os.killpg(proc.pid, 9)      # servers / workers of shards that were stopped early
+    except OSError:
+        pass
     print('mutant rc =', rc)
     sys.exit(rc)
 finally:
